@@ -38,8 +38,8 @@ theorem modelK_digits (B : Nat) (m : Mode) (c : Coarse) (dub : Int → Nat) (s e
 
 theorem two_mul_cast (p : Nat) : (2 : Int) * (p : Int) = ((2 * p : Nat) : Int) := by omega
 theorem three_mul_cast (p : Nat) : (3 : Int) * (p : Int) = ((3 * p : Nat) : Int) := by omega
-/-- the same products with the literal on the right (`self.precision.saturating_mul(2)` of
-    proposed_fixes/float-precision-usize-overflow.diff regenerates in this shape) -/
+/-- the same products with the literal on the right (`self.precision.saturating_mul(2)`, in /repo since fix 5768014,
+    regenerates in this shape) -/
 theorem mul_two_cast (p : Nat) : (p : Int) * (2 : Int) = ((2 * p : Nat) : Int) := by omega
 theorem mul_three_cast (p : Nat) : (p : Int) * (3 : Int) = ((3 * p : Nat) : Int) := by omega
 
@@ -559,16 +559,22 @@ theorem regenerated_inv_contract (B : Nat) (hB : 2 ≤ B) (m : Mode) (c : Coarse
   rw [h1]; rfl
 
 /-- **`Context::mul` as regenerated honours the rounding contract** for finite operands of at most `2p` digits (all that fit
-    `p`); the excluded region is the recorded pre-shrink finding (`Props/C03.mul_preshrink_counterexample`) -/
+    `p`); the excluded region is the recorded pre-shrink finding (`Props/C03.mul_preshrink_counterexample`).
+    Round 6 (fix 5768014, `self.precision.saturating_mul(2)`): the hypothesis `2p ≤ usize::MAX` of round 5 existed only
+    because `2 * precision` wrapped; it is gone — every precision `p ≥ 1` is covered. What remains is the Nat/usize gap of
+    the operand LENGTHS (`hul`/`hur`: at most `usize::MAX` digits, true of every value in memory; the translator reads
+    `saturating_mul` as the exact product, which agrees with the saturated one in the test `max_precision < digits`
+    exactly under this hypothesis). -/
 theorem regenerated_mul_contract (B : Nat) (hB : 2 ≤ B) (m : Mode) (c : Coarse) (hc : CoarseSound c) (dub dlb : Int → Nat)
     (p : Nat) (hp : 1 ≤ p) (ls le rs re : Int) (hl : ¬ (ls = 0 ∧ le ≠ 0)) (hr : ¬ (rs = 0 ∧ re ≠ 0))
-    (ha : digitsI B ls ≤ 2 * p) (hb : digitsI B rs ≤ 2 * p) (hu : ((2 * p : Nat) : Int) ≤ usize_MAX) :
+    (ha : digitsI B ls ≤ 2 * p) (hb : digitsI B rs ≤ 2 * p)
+    (hul : (digitsI B ls : Int) ≤ usize_MAX) (hur : (digitsI B rs : Int) ≤ usize_MAX) :
     ∃ r : Rounded Model.Float.FRepr,
       Context_mul (modelK2 B m c dub dlb) ⟨(p : Int)⟩ ⟨ls, le⟩ ⟨rs, re⟩ =
         .ok (Approx.map (fun v => (⟨v, ⟨(p : Int)⟩⟩ : GluePrelude.FBig)) (toGA toG r)) ∧
       Contract B m p ((⟨ls, le⟩ : Model.Float.FRepr).toRat B * (⟨rs, re⟩ : Model.Float.FRepr).toRat B) (r.1.toRat B) r.2 := by
   refine ⟨ctxMul false B m c p ⟨ls, le⟩ ⟨rs, re⟩, ?_, ?_⟩
-  · rw [context_mul_is_model B m c dub dlb p ls le rs re (by omega) (by omega)]
+  · rw [context_mul_is_model B m c dub dlb p ls le rs re hul hur]
     have : ¬ ((ls = 0 ∧ le ≠ 0) ∨ (rs = 0 ∧ re ≠ 0)) := by
       intro h; rcases h with h | h
       · exact hl h
@@ -578,7 +584,7 @@ theorem regenerated_mul_contract (B : Nat) (hB : 2 ≤ B) (m : Mode) (c : Coarse
     exact opMul_contract B hB m c hc p hp ⟨ls, le⟩ ⟨rs, re⟩
 
 /-- the hypotheses of the three theorems above are satisfiable together on non-trivial values -/
-example : ¬ ((12 : Int) = 0 ∧ (-1 : Int) ≠ 0) ∧ (7 : Int) ≠ 0 ∧ digitsI 10 12 ≤ 2 * 3 ∧ ((2 * 3 : Nat) : Int) ≤ usize_MAX := by
+example : ¬ ((12 : Int) = 0 ∧ (-1 : Int) ≠ 0) ∧ (7 : Int) ≠ 0 ∧ digitsI 10 12 ≤ 2 * 3 ∧ (digitsI 10 12 : Int) ≤ usize_MAX := by
   decide
 
 /-- the digit hypothesis of `context_mul_is_model` etc. is satisfiable on a non-trivial value -/
